@@ -361,6 +361,7 @@ def mroc_stream(ctx):
 def run(ctx):
     streams.hist_corr(ctx, ents=B.ENTRIES)
     streams.fn_corr(ctx, ents=B.ENTRIES)
+    streams.presentation_variants(ctx, fn_ents=B.ENTRIES, hist_ents=B.ENTRIES)
     modes_stream(ctx)
     exhaustive_stream(ctx)
     floor_stream(ctx)
